@@ -407,5 +407,26 @@ def run(ctx, n=None, module_gate_only=False):
                     mimp_once, ok, failed_imports), case)
 
 
+def probe_d41(ctx):
+    """two search paths, each with a tests.py: one module name, two files"""
+    d = os.path.join(ctx.tmp, "probe_d41")
+    for sub, cls, meth in (("d1", "T", "test_one"), ("d2", "U", "test_two")):
+        os.makedirs(os.path.join(d, sub))
+        with open(os.path.join(d, sub, "tests.py"), "w") as f:
+            f.write("import unittest\nclass %s(unittest.TestCase):\n    def %s(self): pass\n" % (cls, meth))
+    env = dict(os.environ)
+    env["PYTHONDONTWRITEBYTECODE"] = "1"
+    pr = subprocess.run([common.PY, "-m", "zope.testrunner", "--path", os.path.join(d, "d1"), "--path", os.path.join(d, "d2"),
+                         "--list-tests"], cwd=d, env=env, stdout=subprocess.PIPE, stderr=subprocess.PIPE, timeout=120)
+    out = pr.stdout.decode("utf-8", "replace")
+    shutil.rmtree(d, ignore_errors=True)
+    still = out.count("test_one (tests.T.test_one)") == 2 and "test_two" not in out
+    return still, ("--path d1 --path d2, each with a tests.py: both files map to the module name 'tests'; d1/tests.py "
+                   "serves as test module twice (its tests are listed and run twice), d2/tests.py is never loaded")
+
+
+KNOWN_PROBES = {"D41": probe_d41}
+
+
 def replay(ctx, obj):
     run(ctx)
